@@ -987,3 +987,40 @@ pub fn read_behaviours(path: &str) -> Vec<(usize, usize, Vec<Step>)> {
     }
     v
 }
+
+// ---------------------------------------------------------------------------------------------
+// witness mode: concrete inputs derived from a failed symbolic obligation (spec/Sym.tla) are run against the real code and
+// recorded as ordinary events; only TLC's validation of these events can turn the obligation into an alarm.
+// WITNESS_FILE lines:  <decl> <field> <idx> <op:get|with|set> <raw bits> <value bits>
+pub fn run_witness<T: Reg>(r: &mut Rec, path: &str) {
+    let text = std::fs::read_to_string(path).unwrap();
+    let mut started = false;
+    for line in text.lines() {
+        let p: Vec<&str> = line.split(' ').collect();
+        if p.len() < 6 || p[0].parse::<usize>().ok() != Some(T::ID) {
+            continue;
+        }
+        if !started {
+            r.reset(T::ID);
+            started = true;
+        }
+        let mut d: Drv<T> = Drv { r, s: Slots { a: T::zero(), b: T::zero() }, rng: Rng::new(1) };
+        let f: usize = p[1].parse().unwrap();
+        let i: usize = p[2].parse().unwrap();
+        let raw = parse_bits(p[4]);
+        let v = parse_bits(p[5]);
+        d.op_new(0, raw);
+        d.op_copy(0, 1);
+        match p[3] {
+            "get" => d.op_get(0, f, i),
+            "with" => {
+                d.op_with(0, 1, f, i, v);
+                d.op_raw(1);
+            }
+            _ => {
+                d.op_set(0, f, i, v);
+                d.op_raw(0);
+            }
+        }
+    }
+}
